@@ -2,7 +2,7 @@
    Property theorems only; about the schema and the stop rule REGENERATED from abstract.py. *)
 From Coq Require Import List ZArith Bool Arith.
 From PV Require Import Xnum Select PyLib Select_proofs Loop Loop_proofs.
-From PVGen Require Import GenStop GenSchema.
+From PVGen Require Import GenStop GenSchema GenHyper.
 From PVBridge Require Import LoopBridge C04Main.
 
 (* the regenerated statement schema of optimize() is the one the model interprets *)
@@ -37,6 +37,11 @@ Theorem C04_stop_rule :
     (forall k, 1 <= k <= K -> nth k (r_evolution _ _ r) nil = map (report A cost with_cost (a_dir ar)) (pop_at A H step h0 p0 k)) /\
     nth 0 (r_evolution _ _ r) nil = map (report A cost with_cost (a_dir ar)) pinit.
 Proof. exact stop_rule. Qed.
+
+(* the stop options reach the rule exactly as configured: EarlyStopping / BaseOptimizationConfig consist of exactly the documented fields and the patience validator
+   (regenerated class text) - no validator rewrites a value, e.g. a "default filling" `or` that would turn min_delta = 0.0 into 1e-4 *)
+Theorem C04_configuration_as_given : gen_stop_config_shape = true.
+Proof. reflexivity. Qed.
 
 (* the mean fitness of a generation is computed by the REGENERATED helpers.average_fitness: numpy's average (the oracle `mean`)
    of exactly the agents' fitness values - so the rates of the theorem above, instantiated with it, are
